@@ -32,6 +32,11 @@ type hDate struct {
 
 // hDateCell is a symbolic YYYYMMDD cell assumed to be a valid civil date.
 func hDateCell(tag string) hDate {
+	if vr.Param("SPECIAL", 0) == 1 {
+		// concrete civil dates on and around the daylight-saving transitions of the zones under test
+		s := vr.OneOf(tag+".special", "20240310", "20241103", "20240309", "20240704", "20240331")
+		return hDate{cell: s, y: hAtoi(s[0:4]), m: hAtoi(s[4:6]), d: hAtoi(s[6:8])}
+	}
 	s := vr.Chars(tag, 8, "digit")
 	if vr.Param("CENTURY20", 1) == 1 {
 		s = "20" + vr.Chars(tag, 6, "digit")
